@@ -79,7 +79,8 @@ type MdnsManager struct {
 
 	mux,
 	muxAnnounced,
-	muxReport sync.Mutex
+	muxReport,
+	muxProvider sync.Mutex
 }
 
 func shortenString(s string, maxLen int) string {
@@ -217,20 +218,37 @@ func (m *MdnsManager) Shutdown() {
 	m.shutdownOnce.Do(func() {
 		m.UnannounceMdnsEntry()
 
-		if m.mdnsProvider == nil {
+		provider := m.provider()
+		if provider == nil {
 			return
 		}
 
-		m.mdnsProvider.Shutdown()
-		m.mdnsProvider = nil
+		provider.Shutdown()
+		m.setProvider(nil)
 	})
+}
+
+// the provider can be set to nil by Shutdown while other goroutines announce or unannounce
+func (m *MdnsManager) provider() api.MdnsProviderInterface {
+	m.muxProvider.Lock()
+	defer m.muxProvider.Unlock()
+
+	return m.mdnsProvider
+}
+
+func (m *MdnsManager) setProvider(provider api.MdnsProviderInterface) {
+	m.muxProvider.Lock()
+	defer m.muxProvider.Unlock()
+
+	m.mdnsProvider = provider
 }
 
 // Announces the service to the network via mDNS
 // A CEM service should always invoke this on startup
 // Any other service should only invoke this whenever it is not connected to a CEM service
 func (m *MdnsManager) AnnounceMdnsEntry() error {
-	if m.mdnsProvider == nil {
+	provider := m.provider()
+	if provider == nil {
 		return nil
 	}
 
@@ -261,7 +279,7 @@ func (m *MdnsManager) AnnounceMdnsEntry() error {
 
 	serviceName := m.serviceName
 
-	if err := m.mdnsProvider.Announce(serviceName, m.port, txt); err != nil {
+	if err := provider.Announce(serviceName, m.port, txt); err != nil {
 		logging.Log().Debug("mdns: failure announcing service", err)
 		return err
 	}
@@ -276,11 +294,12 @@ func (m *MdnsManager) AnnounceMdnsEntry() error {
 
 // Stop the mDNS announcement on the network
 func (m *MdnsManager) UnannounceMdnsEntry() {
-	if !m.isServiceAnnounced() || m.mdnsProvider == nil {
+	provider := m.provider()
+	if !m.isServiceAnnounced() || provider == nil {
 		return
 	}
 
-	m.mdnsProvider.Unannounce()
+	provider.Unannounce()
 	logging.Log().Debug("mdns: stop announcement")
 
 	m.setIsServiceAnnounce(false)
